@@ -16,6 +16,15 @@ impl Call {
     }
 }
 
+/// an operation of a C20 script
+#[derive(Clone, Debug)]
+pub struct Call2 {
+    pub kind: String,
+    pub a: usize,
+    pub b: usize,
+    pub e: u32,
+}
+
 /// `c.0.1.5/d.0.1|q.0.1` -> per thread its calls
 pub fn parse_threads(spec: &str) -> Vec<Vec<Call>> {
     spec.split('|')
@@ -111,7 +120,7 @@ macro_rules! conc_mod {
             }
 
             /// one run under a forced schedule prefix; returns (output line, decisions, mutator results + dump, failure)
-            pub fn run(st: &St, threads: &[Vec<Call>], forced: Vec<usize>) -> (String, Vec<(usize, usize, usize)>, (Vec<Vec<String>>, String), Option<String>) {
+            pub fn run(st: &St, threads: &[Vec<Call>], forced: Vec<usize>, forced_ids: Vec<usize>) -> (String, Vec<(usize, usize, usize)>, (Vec<Vec<String>>, String), Option<String>) {
                 let nodes: Vec<N> = st.nodes.clone();
                 let mut bodies: Vec<Box<dyn FnOnce() -> String + Send>> = vec![];
                 for calls in threads {
@@ -119,7 +128,7 @@ macro_rules! conc_mod {
                     let calls = calls.clone();
                     bodies.push(Box::new(move || calls.iter().map(|c| do_call(&ns, c)).collect::<Vec<_>>().join(",")));
                 }
-                let out = sched::run_once(forced, bodies);
+                let out = sched::run_once(forced, forced_ids, bodies);
                 let dump = std::panic::catch_unwind(std::panic::AssertUnwindSafe(|| crate::exec::$m::dump(st))).unwrap_or_else(|_| "POISONED".into());
                 let mut fail = None;
                 if let Some(why) = &out.deadlock {
